@@ -17,6 +17,7 @@ pub struct Report {
     pub skipped_host: u64,
     pub skipped_unsupported: u64,
     pub pre_failed: u64,
+    pub no_state_row: u64,
     pub states: u64,
     pub per_action: HashMap<String, u64>,
     pub mismatches: Vec<Value>,
@@ -171,32 +172,47 @@ pub fn replay_rows<P: PT, C: Coll<P>>(
     rep: &mut Report,
 ) {
     let mut cache: HashMap<String, Option<C>> = HashMap::new();
+    // state rows: path -> (tree, accounting) the path must produce
+    let mut pre: HashMap<String, (Value, Value)> = HashMap::new();
     let mut line = String::new();
     loop {
         line.clear();
         if input.read_line(&mut line).unwrap() == 0 {
             break;
         }
-        let Some(row) = parse_row(&line) else { continue };
+        let Some(mut row) = parse_row(&line) else { continue };
+        if let Some(s) = row.get("s") {
+            pre.insert(serde_json::to_string(s).unwrap(), (row["f"].clone(), row["fx"].clone()));
+            continue;
+        }
         if row.get("e").is_none() {
             continue;
         }
         rep.rows += 1;
-        if !P::HOSTS && (nonzero_host(&row["h"]) || nonzero_host(&row["e"]) || tree_nonzero_host(&row["f"])) {
+        let key = serde_json::to_string(&row["h"]).unwrap();
+        let Some((f, fx)) = pre.get(&key) else {
+            rep.no_state_row += 1;
+            continue;
+        };
+        if row.get("t").is_none() {
+            // observers leave the state unchanged
+            row["t"] = f.clone();
+            row["x"] = fx.clone();
+        }
+        if !P::HOSTS && (nonzero_host(&row["h"]) || nonzero_host(&row["e"]) || tree_nonzero_host(f)) {
             rep.skipped_host += 1;
             continue;
         }
-        let key = serde_json::to_string(&row["h"]).unwrap();
         if !cache.contains_key(&key) {
             let c: C = build_state::<P, C>(&row["h"], ctx);
             // precondition: the replayed path really produced the state the row starts from
-            let ok = c.tree(ctx) == ctx.norm_tree(&row["f"]) && acct(&c.snap()) == row["fx"];
+            let ok = c.tree(ctx) == ctx.norm_tree(f) && acct(&c.snap()) == *fx;
             rep.states += 1;
             if !ok {
                 rep.mismatch_count += 1;
                 if rep.mismatches.len() < max_mismatch {
                     rep.mismatches.push(json!({"kind": "pre", "h": row["h"], "e": {"a": "PathReplay"},
-                        "expected": {"t": ctx.norm_tree(&row["f"]), "x": row["fx"]},
+                        "expected": {"t": ctx.norm_tree(f), "x": fx},
                         "got": {"t": c.tree(ctx), "x": acct(&c.snap())}}));
                 }
             }
@@ -215,14 +231,14 @@ pub fn replay_rows<P: PT, C: Coll<P>>(
         *rep.per_action.entry(row["e"]["a"].as_str().unwrap().to_string()).or_default() += 1;
         let st = observe::<P, C>(&c, ctx, o);
         let mm = compare(&row, ctx, &st, C::IS_SET);
-        if rep.samples.len() < 3 && rep.executed % 997 == 1 {
+        if rep.samples.len() < 3 && rep.executed % 4999 == 2500 {
             rep.samples.push(json!({"h": row["h"], "e": row["e"], "r": st.ret, "t": st.tree, "x": st.acct}));
         }
         for (kind, exp, got) in mm {
             rep.mismatch_count += 1;
             if rep.mismatches.len() < max_mismatch {
                 rep.mismatches.push(json!({"kind": kind, "h": row["h"], "e": row["e"], "expected": exp, "got": got,
-                    "row": {"r": row["r"], "pn": row["pn"], "t": row["t"], "x": row["x"], "f": row["f"], "fx": row["fx"]}}));
+                    "row": {"r": row["r"], "pn": row["pn"], "t": row["t"], "x": row["x"], "f": f, "fx": fx}}));
             }
         }
     }
@@ -232,7 +248,7 @@ pub fn report_json(rep: &Report, ptype: &str, coll: &str) -> Value {
     json!({
         "ptype": ptype, "coll": coll,
         "rows": rep.rows, "executed": rep.executed, "skipped_host": rep.skipped_host,
-        "skipped_unsupported": rep.skipped_unsupported, "pre_failed": rep.pre_failed,
+        "skipped_unsupported": rep.skipped_unsupported, "pre_failed": rep.pre_failed, "no_state_row": rep.no_state_row,
         "states": rep.states, "per_action": rep.per_action,
         "mismatch_count": rep.mismatch_count, "mismatches": rep.mismatches, "samples": rep.samples,
     })
